@@ -122,11 +122,13 @@ type c15RCase struct {
 	FailAt   int      `json:"failat"` // 0: no fault (fragmentation-only case)
 	Sticky   bool     `json:"sticky"`
 	FailKind int      `json:"failkind,omitempty"` // 0 plain error, 1 wraps io.EOF, 2 wraps io.ErrUnexpectedEOF
+	Skip     []int    `json:"skip,omitempty"`     // skippable frames (payload lengths) in front of the frame
+	OnlySkip bool     `json:"onlyskip,omitempty"` // the source holds the skippable frames only, no data frame
 }
 
 func runC15RWith(c c15RCase, z, data []byte, rec *stat.Rec) *stat.Failure {
 	rec.Eval()
-	src := &inst.Source{Data: z, Chunks: c.R.Src, EOFWith: c.R.EOFWith, FailAt: c.FailAt, Sticky: c.Sticky, FailWith: failErr(c.FailKind)}
+	src := &inst.Source{Data: z, Chunks: c.R.Src, EOFWith: c.R.EOFWith, ZeroBurst: c.R.ZeroBurst, FailAt: c.FailAt, Sticky: c.Sticky, FailWith: failErr(c.FailKind)}
 	rd := lz4.NewReader(src)
 	if err := rd.Apply(lz4.ConcurrencyOption(c.R.Conc)); err != nil {
 		return stat.Failf("C15/reader/apply-fails", "%v", err)
@@ -168,6 +170,20 @@ func runC15RWith(c c15RCase, z, data []byte, rec *stat.Rec) *stat.Failure {
 		conc = "conc"
 	}
 	desc := fmt.Sprintf("%s, frame of %d bytes; reader %+v; source call %d fails (sticky=%v), %d calls made", c.Opts, len(z), c.R, c.FailAt, c.Sticky, src.Calls)
+	if src.Failed == 0 && c.OnlySkip {
+		// no data frame at all: whatever the Reader says about such a source (0 bytes and a clean end, or io.EOF from
+		// WriteTo), it must say the same however the source fragments its reads
+		plain := c
+		plain.R.Src, plain.R.EOFWith, plain.R.Seeker, plain.R.ZeroBurst, plain.FailAt = nil, false, false, 0, 0
+		bres := readAll(z, plain.R, nil)
+		var got error = err
+		if len(out) != len(bres.Out) || errClass(got) != errClass(bres.Err) {
+			return stat.Failf("C15/reader/skippable-only-source-depends-on-fragmentation", "%s: %d bytes, %v; with a plain source: %d bytes, %v", desc, len(out), got, len(bres.Out), bres.Err)
+		}
+		rec.Class("reader/fault-free(fragmentation)")
+		rec.NonTrivial(stat.FP("skiponly", z, fmt.Sprint(c.R)))
+		return nil
+	}
 	if src.Failed == 0 {
 		// no fault hit: the fragmentation must be irrelevant
 		if err != nil {
@@ -199,11 +215,30 @@ func runC15RWith(c c15RCase, z, data []byte, rec *stat.Rec) *stat.Failure {
 	return nil
 }
 
-func runC15R(c c15RCase, rec *stat.Rec) *stat.Failure {
+// c15Stream builds the compressed source of a reader-side case: skippable frames, then the frame (or nothing).
+func c15Stream(c c15RCase) ([]byte, []byte, *stat.Failure) {
 	data := c.Data.Build()
-	z, f := emit(c.Opts, data, "write", delivery{Mode: "write"}, nil)
+	var z []byte
+	for i, n := range c.Skip {
+		z = append(z, byte(0x50+(i*3+n)%16), 0x2A, 0x4D, 0x18, byte(n), byte(n>>8), byte(n>>16), byte(n>>24))
+		junk := make([]byte, n)
+		gen.Fill(junk, uint64(n)+1)
+		z = append(z, junk...)
+	}
+	if c.OnlySkip {
+		return z, nil, nil
+	}
+	fz, f := emit(c.Opts, data, "write", delivery{Mode: "write"}, nil)
 	if f != nil {
-		return stat.Failf("C15/reader/cannot-build-frame", "%s", f.Msg)
+		return nil, nil, stat.Failf("C15/reader/cannot-build-frame", "%s", f.Msg)
+	}
+	return append(z, fz...), data, nil
+}
+
+func runC15R(c c15RCase, rec *stat.Rec) *stat.Failure {
+	z, data, f := c15Stream(c)
+	if f != nil {
+		return f
 	}
 	return runC15RWith(c, z, data, rec)
 }
@@ -306,7 +341,7 @@ func safelyF(f func() *stat.Failure) (res *stat.Failure) {
 func TestC15Reader(t *testing.T) {
 	rec := stat.For("C15")
 	rec.SetRule(c15Rule)
-	rec.Require("reader/nontrivial", "reader/conc", "reader/seq", "reader/fault-free(fragmentation)", "reader/fault-free(data-with-EOF)")
+	rec.Require("reader/nontrivial", "reader/conc", "reader/seq", "reader/fault-free(fragmentation)", "reader/fault-free(data-with-EOF)", "reader/fault-free(150-empty-reads-in-a-row)", "reader/skippable-frames-only")
 	n := pick(500, 8000)
 	n = (n + nshards - 1) / nshards
 	setRapid(n, "C15/reader")
@@ -322,10 +357,19 @@ func TestC15Reader(t *testing.T) {
 		if len(c.R.Src) == 0 && rapid.Bool().Draw(rt, "frag") {
 			c.R.Src = rapid.SampledFrom([][]int{{1}, {0, 1}, {3, 0, 0, 5}, {4095}, {65536, 1}}).Draw(rt, "fragkind")
 		}
-		data := c.Data.Build()
-		z, f := emit(c.Opts, data, "write", delivery{Mode: "write"}, nil)
+		if rapid.IntRange(0, 3).Draw(rt, "skip?") == 0 {
+			c.Skip = rapid.SliceOfN(rapid.SampledFrom([]int{0, 1, 3, 4, 200, 70000}), 1, 2).Draw(rt, "skip")
+			c.OnlySkip = rapid.IntRange(0, 2).Draw(rt, "onlyskip") == 0
+		}
+		z, data, f := c15Stream(c)
 		if f != nil {
 			return
+		}
+		if len(c.Skip) > 0 {
+			rec.Class("reader/skippable-frames-in-front")
+		}
+		if c.OnlySkip {
+			rec.Class("reader/skippable-frames-only")
 		}
 		// fault-free run under this fragmentation: counts the source calls
 		probe := &inst.Source{Data: z, Chunks: c.R.Src, EOFWith: c.R.EOFWith}
@@ -338,13 +382,19 @@ func TestC15Reader(t *testing.T) {
 		// the fragmentation patterns the statement names, each fault-free: single bytes, data returned together with
 		// io.EOF (whole, halves, single bytes), interspersed zero-length reads
 		for _, fr := range []struct {
-			src []int
-			eof bool
-		}{{[]int{1}, false}, {[]int{1}, true}, {nil, true}, {[]int{len(z)/2 + 1}, true}, {[]int{0, 7, 0, 0, 1}, true}, {[]int{0, 3}, false}} {
-			cc.R.Src, cc.R.EOFWith = fr.src, fr.eof
+			src   []int
+			eof   bool
+			burst int
+		}{{[]int{1}, false, 0}, {[]int{1}, true, 0}, {nil, true, 0}, {[]int{len(z)/2 + 1}, true, 0}, {[]int{0, 7, 0, 0, 1}, true, 0}, {[]int{0, 3}, false, 0},
+			// long stalls: 150 empty reads in a row before every chunk of data
+			{[]int{4096}, false, 150}, {nil, true, 150}} {
+			cc.R.Src, cc.R.EOFWith, cc.R.ZeroBurst = fr.src, fr.eof, fr.burst
 			judge(rt, "C15", "C15/reader", cc, safelyF(func() *stat.Failure { return runC15RWith(cc, z, data, rec) }))
 			if fr.eof {
 				rec.Class("reader/fault-free(data-with-EOF)")
+			}
+			if fr.burst > 0 {
+				rec.Class("reader/fault-free(150-empty-reads-in-a-row)")
 			}
 		}
 		ks := faultIndices(probe.Calls, 300, rt)
